@@ -101,6 +101,9 @@ type tcpPacketConn struct {
 
 	// refs counts outstanding sharedPacketConn wrappers handed out by the mux.
 	refs atomic.Int32
+	// handedOut is set (under the mux lock) once a wrapper has been handed out:
+	// from then on refs == 0 means the last wrapper is closing the conn.
+	handedOut bool
 }
 
 type streamingPacket struct {
